@@ -85,7 +85,7 @@ vharness! {
     //@ stubs: yes
     //@ functions: v5::Codec::decode (FrameHeader arm, Frame arm, entry into the PublishHeader arm), utils::decode_variable_length(_cursor), packet_type::is_publish
     //@ bounds: ONE decode call from the idle state; max_inbound_size, min_chunk_size full-width u32; buffer 0..=8 arbitrary bytes
-    //@ unwindset: spec_fixed5=6 decode_variable_length_cursor=6
+    //@ unwindset: spec_fixed5=6 decode_variable_length_cursor=6 Decoder>::decode=3 utf8_is_valid=1 parse_publish_properties=1
     //@ assumes: non-PUBLISH body decoders replaced by an arbitrary-result stub (decided per type in h_v5.rs); Publish::packet_header_size stubbed to "need more bytes" (the real one is decided by fr5_step_pubhdr from the PublishHeader pre-state)
     //@ mem: 10  timeout: 1200
     //@ desc: v5 frame layer from idle: incomplete header consumes nothing; over-size frame rejected on the fixed header with nothing consumed; incomplete body consumes exactly the header; complete frame consumes exactly 1+len(RL)+RL whatever the body decoder says
